@@ -17,6 +17,8 @@ import time
 
 import z3
 
+from .values import Infeasible
+
 S = z3.StringSort()
 I = z3.IntSort()
 B = z3.BoolSort()
